@@ -178,6 +178,64 @@ def run(ctx):
         ctx.ob(R2, 'writer-uses-get_to_string', uw, 'write_file_blocking must print cells with ArrayImpl::get_to_string')
         ctx.ob(R2, 'reader-uses-push_str', ur, 'read_file_blocking must parse cells with ArrayBuilderImpl::push_str')
 
+        R7 = 'C20-R7'
+        ctx.rule(R7, 'a text cell is imported as it stands in the file: in ArrayBuilderImpl::push_str the operand of the NULL test, and the '
+                     'value pushed in the String arm, are the parameter `s` itself - reached through references and copies only, with no call '
+                     '(trim, to_lowercase, replace ..) in between. The writer prints strings verbatim, so any normalisation on the way in makes '
+                     'COPY TO + COPY FROM change or lose those cells')
+        from tmpl import local_defs
+
+        def leaves(l, depth=8, seen=None, out=None):
+            seen = seen if seen is not None else set()
+            out = out if out is not None else set()
+            if l in seen or depth < 0:
+                return out
+            seen.add(l)
+            ds = local_defs(ps, l)
+            if not ds:
+                out.add(('input', ps.var_name(l) or f'_{l}'))
+            for _, kind, payload in ds:
+                if kind == 'assign':
+                    for pl in __pl(payload):
+                        leaves(pl['l'], depth - 1, seen, out)
+                else:
+                    out.add(('call', (payload.get('fn') or '?').rsplit('::', 1)[-1]))
+            return out
+        tests = [c for c in ps.calls if re.search(r'str>::is_empty$', c.name or '') or
+                 (re.search(r'PartialEq::eq$', c.fn or '') and any(a['k'] == 'const' for a in c.args))]
+        def on_string_arm(c):
+            if not c.args or c.args[0]['k'] == 'const':
+                return False
+            from tmpl import origin_locals
+            for x in origin_locals(ps, c.args[0]['pl']['l'], depth=4):
+                for _, kind, payload in local_defs(ps, x):
+                    if kind == 'assign' and any('as:String' in pl['p'] for pl in __pl(payload)):
+                        return True
+            return False
+        pushes = [c for c in ps.calls if re.search(r'ArrayBuilder::push$', c.fn or '') and on_string_arm(c)]
+        if ctx.anchor(R7, 'push_str: NULL test on the field', tests):
+            for c in tests:
+                lv = set()
+                for a in c.args:
+                    if a['k'] != 'const':
+                        lv |= leaves(a['pl']['l'])
+                ok = bool(lv) and all(x == ('input', 's') for x in lv)
+                ctx.ob(R7, 'push_str·NULL-test-on-the-field-as-it-is', ok,
+                       f'the NULL test at block {c.bb} looks at {sorted(lv)}', [site(ps, c.bb)],
+                       what='push_str decides NULL on a transformed copy of the field (trimmed, case-folded ..): a string that the writer '
+                            'printed verbatim - e.g. one that consists of blanks - comes back from COPY FROM as NULL')
+        if ctx.anchor(R7, 'push_str: String arm', pushes):
+            for c in pushes:
+                lv = set()
+                for a in c.args[1:]:
+                    if a['k'] != 'const':
+                        lv |= leaves(a['pl']['l'])
+                lv = {x for x in lv if x != ('input', 'null')}
+                ok = all(x[0] == 'input' for x in lv)
+                ctx.ob(R7, 'push_str·String-stored-as-it-is', ok,
+                       f'the String arm pushes a value built from {sorted(lv)}', [site(ps, c.bb)],
+                       what='push_str transforms a text cell before storing it: COPY TO + COPY FROM changes the string')
+
     R3 = 'C20-R3'
     ctx.rule(R3, 'every column type the writer can print has a parsing arm in the reader: ArrayBuilderImpl::push_str handles every '
                  'ArrayBuilderImpl variant without diverging')
